@@ -109,10 +109,10 @@ class StmtsMixin:
         out = []
         for s1, c in self.ev(s.test, st, d):
             t = truth(c, s1)
-            sa = s1.copy(); sa.assume(z3.Not(t))
+            sa = s1.copy(); sa.assume_branch(z3.Not(t))
             if feasible(sa.pc):
                 out.append((sa, "raise", ("AssertionError", s.lineno)))
-            sb = s1.copy(); sb.assume(t); out.append((sb, "fall", None))
+            sb = s1.copy(); sb.assume_branch(t); out.append((sb, "fall", None))
         return out
 
     def st_FunctionDef(self, s, st, d):
@@ -266,7 +266,7 @@ class StmtsMixin:
         for s1, c in self.ev(s.test, st, d):
             t = truth(c, s1)
             for body, cond, branch in ((s.body, t, True), (s.orelse, z3.Not(t), False)):
-                s2 = s1.copy(); s2.assume(cond)
+                s2 = s1.copy(); s2.assume_branch(cond)
                 if feasible(s2.pc):
                     if opaque is not None and opaque["branch"] == branch:
                         # stated abstraction: this branch is not modelled; its outcomes are over-approximated
